@@ -820,8 +820,8 @@ class Translation:
     # ---- build a specialisation
     def ensure(self, pyname, statics):
         spec = self.specs[pyname]
-        tag = "__".join(_static_tag(statics[n]) for n, k, _ in spec.params if k == "static")
-        cname = spec.cname + ("__" + tag if tag else "")
+        tag = "_".join(_static_tag(statics[n]) for n, k, _ in spec.params if k == "static")
+        cname = spec.cname + ("_s_" + tag if tag else "")
         if cname in self.defs:
             return self.defs[cname]
         d = {"cname": cname, "spec": spec, "statics": statics, "pending": True}
